@@ -18,7 +18,11 @@ HUnseal(s, i, mut) ==
    ELSE [s EXCEPT !.exc = "ValueError", !.rseq = IF IncrementBeforeResult THEN @ + 1 ELSE @, !.fresh = FALSE]
 \* test harness action: put both sequence numbers near the limit (only on fresh contexts)
 HPreset(s, v) == IF s.fresh THEN [s EXCEPT !.sseq = v, !.rseq = v, !.exc = "none"] ELSE [s EXCEPT !.exc = "none"]
+\* a call in the wrong role - unseal() on the sender's context, seal() on the receiver's - is refused and changes nothing ("This cipher can only
+\* be used to seal / unseal"): if it went through, the two directions would draw from the same nonce sequence under the same key
+HWrongRole(s) == [s EXCEPT !.exc = "ValueError", !.fresh = FALSE]
 HStep(s, e) == CASE e.op = "seal" -> HSeal(s)
+                 [] e.op = "wrongrole" -> HWrongRole(s)
                  [] e.op = "unseal" -> HUnseal(s, e.src, e.mut)
                  [] e.op = "preset" -> HPreset(s, e.v)
 =============================================================================
